@@ -203,7 +203,7 @@ def strategy(thorough):
     hist = st.integers(0, 2).flatmap(lambda i: pair if i == 0 else hist)
     pres = st.sampled_from(["direct", "direct", "direct", "partial", "force_local", "partial+force_local", "ctx+partial", "force_local+ignore+partial"])
     general = st.builds(lambda p, h, pres: {"program": p, "history": h, "pres": pres, "args": [1, 2]},
-                        progs.program_strategy(max_fns=7 if thorough else 5, allow_fdef=True, allow_dictset=True, allow_tuplist=True, allow_init=True, allow_declared=True, allow_rename=True, allow_nested_refs=True), hist, pres)
+                        progs.program_strategy(max_fns=7 if thorough else 5, allow_fdef=True, allow_dictset=True, allow_tuplist=True, allow_init=True, allow_declared=True, allow_rename=True, allow_nested_refs=True, allow_gdef=True), hist, pres)
     # value-heavy programs: several variables holding few distinct values, all read by the root; the history gives
     # variables the values other variables hold (versions must differ although every single value was seen before)
     vhist = st.lists(st.builds(lambda e, k, dl: {"edit": dict(e, kind=k), "delivery": dl}, ed, st.sampled_from(["varcopy", "varcopy", "var"]),
